@@ -811,6 +811,9 @@ class DependencyVisitor(TraverserVisitor):
             self.process_binary_op(op, left, right)
 
     def process_binary_op(self, op: str, left: Expression, right: Expression) -> None:
+        if op == "not in":
+            # This calls the same method as 'in'.
+            op = "in"
         method = op_methods.get(op)
         if method:
             if op == "in":
